@@ -81,7 +81,7 @@ def package_specs(tier):
             yield [list(m), list(e)]
 
 
-SIZES = {"quick": [255, 256, 65535, 65536, 65537, 70000, 1 << 17], "thorough": [255, 256, 4095, 4096, 65535, 65536, 65537, 70000, 1 << 17, (1 << 20) - 1, 1 << 20, (1 << 20) + 1, 1 << 22, (1 << 24) + 7]}
+SIZES = {"quick": [255, 256, 65535, 65536, 65537, 70000, 1 << 17], "thorough": [255, 256, 4095, 4096, 65535, 65536, 65537, 70000, 1 << 17, (1 << 20) - 1, 1 << 20, (1 << 20) + 1, (1 << 22) + 7]}  # 2^24 costs ~25 min single-threaded
 COUNTS = {"quick": [9, 10, 11, 130], "thorough": [9, 10, 11, 99, 100, 101, 130, 255, 256, 257, 700]}
 
 
@@ -111,7 +111,7 @@ def big_module(n, kind):
 
 
 def size_specs(tier):
-    """The size ladder: payloads straddling 2^8 .. 2^24 bytes, and packages of many small modules."""
+    """The size ladder: payloads straddling 2^8 .. 2^22 bytes, and packages of many small modules."""
     for n in SIZES[tier]:
         for kind in ("rep", "mix"):
             yield [[["big", n, kind]], []]
@@ -437,7 +437,7 @@ def run(tier: str, seed: int) -> Result:
         "rule": "packages = ordered selections of <=2 (3) of 3 modules (one with non-ASCII names/metadata and null-carrying fields) x <=2 of "
         "3 extensions (incl. an op with signature+binary flag); x 3 formats x compression levels; to_bytes/from_bytes/to_str/from_str; header "
         "decoder on all 65536 (format, flags) pairs, truncations 0..9, every single-byte magic corruption; non-trivial = non-empty package or "
-        "a header pair; size ladder: one module with a metadata string of n characters (n straddling 2^8, 2^16, 2^17 (thorough 2^20, 2^22, 2^24), "
+        "a header pair; size ladder: one module with a metadata string of n characters (n straddling 2^8, 2^16, 2^17 (thorough 2^20, 2^22), "
         "highly and poorly compressible) and packages of k small modules (k straddling 10, 100 (thorough 256), 130, 700), JSON x {none, default, 3}",
         "samples": col.samples,
         "exhaustive": True,
